@@ -101,6 +101,11 @@ THEOREMS = [
     "Verif.C13.leaf_jac_ok",
     "Verif.C13.leaf_jac_ok_cubic",
     "Verif.C13.demo_tree_hypotheses",
+    "Verif.C13.efjc_distance_jac_Lc_St",
+    "Verif.C13.efjc_distance_above_guards",
+    "Verif.C13.efjc_distance_between_guards",
+    "Verif.C13.inverted_tree_derivative_sound",
+    "Verif.C13.demo_inverted",
     "Verif.C13.OF.jac_Lp_hasDerivAt",
     "Verif.C13.OF.jac_Lc_hasDerivAt",
     "Verif.C13.OF.jac_St_hasDerivAt",
